@@ -299,7 +299,9 @@ func runCopy(cfg config) {
 		var fs []fault
 		last := map[string]int{}
 		for _, t := range strings.Split(obs[i+6:], ",") {
-			if len(t) < 3 {
+			if len(t) < 3 || t[1] == '?' {
+				// a primitive the model does not know: no fault plan can name it; the fault-free
+				// case itself differs from the model by its trace
 				continue
 			}
 			var idx int
